@@ -544,7 +544,7 @@ pub fn campaign(ctx: &Ctx, prop: &str, rep: &mut Report) {
     rep.class_n("libfuzzer:seed-files-from-generators", n as u64);
     let dict = ctx.scratch().join(format!("fuzzuci-{}-{}.dict", prop, std::process::id()));
     let have_dict = write_dict(&dict);
-    let t = super::fuzzplay::Target { bin_env: "RCE_FUZZ_UCI_BIN", max_len: 1024, seed_dir: dir.clone(), dict: have_dict.then(|| dict.clone()), replay: replay_raw, nontrivial, sample: Some(sample_json) };
+    let t = super::fuzzplay::Target { bin_env: "RCE_FUZZ_UCI_BIN", max_len: 1024, seed_dir: dir.clone(), dict: have_dict.then(|| dict.clone()), replay: replay_raw, nontrivial, sample: Some(sample_json), jobs_mode: false };
     super::fuzzplay::campaign_on(ctx, prop, rep, &t);
     let _ = std::fs::remove_dir_all(&dir);
     let _ = std::fs::remove_file(&dict);
